@@ -444,7 +444,59 @@ def strat_mutation():
     return s()
 
 
+
+# ------------------------------------------------------------------ the command-line client
+
+CLI_URLS = [
+    "gemini://127.0.0.1:{p}/x?a=b",
+    "GEMINI://127.0.0.1:{p}/x?a=b",
+    "gEmInI://127.0.0.1:{p}/",
+    "Gemini://LOCALHOST:{p}/Dir/File.gmi",
+    "gemini://localhost:{p}",
+    "gemini://LocalHost:{p}/a%2Fb/c;d?q=%3F&x=1",
+    "gemini://localhost:{p}/caf%C3%A9/?",
+    "GEMINI://LOCALHOST:{p}?only=query",
+]
+
+
+def enum_cli(tier):
+    for i in range(len(CLI_URLS)):
+        yield {"url": i}
+
+
+def run_cli(case: dict):
+    """`python -m nauyaca get <URL>`: the URL as a user types it (upper-case scheme / host, empty path, reserved
+    characters) must arrive at the server it names, denoting the same host, port, path and query."""
+    from vlib import cliprobe
+
+    tmpl = CLI_URLS[case["url"]]
+    rc, out, seen, port = cliprobe.run(lambda p: ["get", tmpl.format(p=p)], lambda line, p: b"20 text/gemini\r\nARRIVED\n",
+                                       home_tag="c19-cli-home")
+    url = tmpl.format(p=port)
+    info = {"exit": rc, "requests": len(seen), "out": out[-100:], "url": url}
+    if rc == "timeout":
+        return grey("cli-timeout", **info)
+    want = refurl.denote(url)
+    if not seen:
+        return viol("request-did-not-reach-the-named-server", f"`nauyaca get {url}`: exit {rc}, the server at 127.0.0.1:{port} saw no request; "
+                    f"output ends {out[-80:]!r}", **info)
+    try:
+        got = refurl.denote(seen[0].decode("utf-8"))
+    except (refurl.RefError, UnicodeDecodeError) as e:
+        return viol("wire-line-unparsable", f"{seen[0][:100]!r}: {e}", **info)
+    for k in ("scheme", "port", "path", "query"):
+        if got[k] != want[k]:
+            return viol("wire-components-differ", f"`nauyaca get {url}` sent {seen[0][:100]!r}: {k} {got[k]!r} instead of {want[k]!r}", **info)
+    if got["host"] != want["host"]:
+        return viol("wire-components-differ", f"`nauyaca get {url}` sent {seen[0][:100]!r}: host {got['host']!r}", **info)
+    return ok(**info)
+
+
 LANES = [
+    Lane(name="cli", run_case=run_cli, enumerate=enum_cli, budget={"quick": 1, "thorough": 1}, shards={"quick": 8, "thorough": 8},
+         nontrivial=lambda c, v: c["url"] > 0, labels=lambda c, v: ["url:%d" % c["url"]], exhaustive=True,
+         rule="the command-line client (`nauyaca get URL`) in a child process against a live loopback peer: 8 spellings "
+              "(upper / mixed-case scheme and host, empty path, reserved and escaped characters), request line compared by components"),
     Lane(
         name="wire",
         run_case=run_wire,
